@@ -29,7 +29,11 @@ RULE = ('Configuration: 0-4 listeners in each of the four classes (incoming '
         'later for that packet only, incl. the built-in reaction in login '
         'and play; per outgoing packet early-outgoing listeners, then the '
         'frame bytes on the wire, then ordinary-outgoing listeners, an '
-        'early-outgoing ignore suppresses frame and later calls. '
+        'early-outgoing ignore suppresses frame and later calls. Re-entrant '
+        'component: 1-8 queued packets, an ordinary outgoing listener calls '
+        'disconnect() after the d-th (which flushes the rest from inside '
+        'the write): per packet every listener exactly once on the right '
+        'side of its frame, frames once each in queue order. '
         'Non-trivial: >= 2 listeners in one class with overlapping filters '
         'and >= 1 ignore rule that fires; distinct by (config, history).')
 LEVEL_TEXT = ('Model-based testing of the documented listener dispatch over '
@@ -236,8 +240,18 @@ def dispatch_case(ctx, case):
     cur = {'in': -1, 'out': -1}
     out_kinds = []
 
+    bystander = []
     with vnet.installed(world):
         conn, o = servers.make_connection(world, allowed_versions={version})
+        # listeners registered on another (never connected) Connection
+        # object belong to that object alone
+        other, _o = servers.make_connection(world,
+                                            allowed_versions={version})
+        for kw_ in ({}, {'early': True}, {'outgoing': True},
+                    {'early': True, 'outgoing': True}):
+            other.register_packet_listener(
+                lambda p, k=tuple(kw_): bystander.append(k), F['Packet'],
+                **kw_)
 
         def make(l):
             direction = 'in' if l['cls'][0] == 'i' else 'out'
@@ -287,6 +301,10 @@ def dispatch_case(ctx, case):
         return
     if srv.errors:
         ctx.fail('dispatch', 'D2-malformed-client-stream', case, srv.errors)
+        return
+    if bystander:
+        ctx.fail('dispatch', 'D1-listener-of-another-connection-called',
+                 case, bystander[:4], 'no call')
         return
     by_id = {l['id']: l for l in allL}
     got_in = [(lid, idx) for s, lid, idx in log
